@@ -46,6 +46,74 @@ def run(chk, repo: Repo):
     chk.rule("C13-R7", "a geometry whose par2fun post-processes the wrapped geometry's function values (user map) reports the shape of ITS OWN function "
                        "values: fun_shape / funvec_shape resolve to the probing implementation, not to a delegation to the wrapped geometry", floor=1)
     _r7(chk, repo)
+    chk.rule("C13-R8", "geometry maps act column-wise on a batch of vectors: every NumPy reduction inside par2fun / fun2par / vec2fun / fun2vec (and the private "
+                       "helpers they call) names the axis it reduces - a reduction without axis collapses the whole batch into one number", floor=1)
+    _r8(chk, repo)
+
+
+_REDUCTIONS = {"mean", "max", "min", "sum", "amax", "amin", "median", "prod", "std", "var", "nanmean", "nanmax", "nanmin", "nansum", "ptp"}
+_R8_CONTROL = """
+class G:
+    def fun2par(self, f):
+        pick = np.max
+        a = pick(f[self.idx, :], axis=0)
+        b = f[self.idx, :].max()
+        c = np.mean(f[self.idx, :])
+        d = max(len(f), 3)
+        return a, b, c, d
+"""
+
+
+def _r8_scan(fn):
+    """(call, has_axis) for every reduction call in fn: np.<red>(x, ...), x.<red>(...), or a local bound to such a function"""
+    aliases = set()
+    for st in ast.walk(fn):
+        if isinstance(st, ast.Assign) and len(st.targets) == 1 and isinstance(st.targets[0], ast.Name):
+            v = st.value
+            if isinstance(v, ast.Attribute) and v.attr in _REDUCTIONS and path_of(v.value) in ("np", "numpy"):
+                aliases.add(st.targets[0].id)
+    out = []
+    for c in ast.walk(fn):
+        if not isinstance(c, ast.Call):
+            continue
+        f = c.func
+        kw_axis = any(k.arg == "axis" for k in c.keywords)
+        if isinstance(f, ast.Attribute) and f.attr in _REDUCTIONS:
+            if path_of(f.value) in ("np", "numpy"):
+                out.append((c, kw_axis or len(c.args) >= 2))
+            elif not (isinstance(f.value, ast.Name) and f.value.id in ("self", "math")):
+                out.append((c, kw_axis or len(c.args) >= 1))
+        elif isinstance(f, ast.Name) and f.id in aliases:
+            out.append((c, kw_axis or len(c.args) >= 2))
+    return out
+
+
+def _r8(chk, repo):
+    ctl = ast.parse(_R8_CONTROL).body[0].body[0]
+    got = [(unparse(c)[:20], ok) for c, ok in _r8_scan(ctl)]
+    if [ok for _, ok in got] != [True, False, False]:
+        raise AnchorError(f"C13-R8 positive control did not fire as expected: {got}")
+    n = 0
+    m = repo.modules[GEO]
+    for ci in m.classes.values():
+        work = [ci.methods[k] for k in ("par2fun", "fun2par", "vec2fun", "fun2vec") if k in ci.methods]
+        seen = set()
+        while work:
+            fn = work.pop()
+            if id(fn) in seen:
+                continue
+            seen.add(id(fn))
+            for c in ast.walk(fn):
+                if isinstance(c, ast.Call) and (call_name(c) or "").startswith("self._") and (call_name(c) or "").count(".") == 1:
+                    r = ci.lookup(call_name(c)[5:])
+                    if r is not None:
+                        work.append(r[1])
+            for c, ok in _r8_scan(fn):
+                n += 1
+                chk.add("C13-R8", f"{ci.qual}.{fn.name}/reduction@{unparse(c.func)[:30]}", ok, site(repo, c), "reduction names its axis",
+                        f"`{unparse(c)[:70]}` reduces without an axis inside a geometry map: for a batch of function-value columns every column receives the "
+                        f"reduction over the whole batch, so the map no longer acts column-wise (fun2par(batch) != column-wise fun2par)", c)
+    return n
 
 
 def _r7(chk, repo):
